@@ -605,7 +605,7 @@ func (c *ExpressionParser) performSyntaxAnalysisAtLevel6() error {
 		for true {
 			c.moveToNextToken()
 			token = c.getCurrentToken()
-			if token == nil || token.Type() == RightBrace {
+			if token == nil || (token.Type() == RightBrace && paramCount == 0) {
 				break
 			}
 
